@@ -197,6 +197,20 @@ def forward_mode(thorough):
                 if f.startswith("cum") and "keepdims" in kw:
                     continue
                 compare("mg.%s(tensor[%s], %s)" % (f, dt, kw), lambda: getattr(mg, f)(mg.tensor(a), **kw), lambda: getattr(np, f)(a, **kw), "seq:%s:%s" % (f, dt))
+    # dtype= together with out= (Tensor and ndarray targets): the loop runs in the requested dtype, the target only receives the result
+    for f, nin in (("exp", 1), ("sqrt", 1), ("add", 2), ("multiply", 2), ("divide", 2), ("subtract", 2)):
+        for dt, od in (("float32", "float64"), ("float16", "float32"), ("int8", "int64"), ("float64", "float32")):
+            a = (np.array([100, 120, 7]) if dt == "int8" else rng.rand(3) * 3 + 0.1).astype(dt)
+            b = (np.array([100, 90, 5]) if dt == "int8" else rng.rand(3) * 3 + 0.1).astype(dt)
+            args_np = (a,) if nin == 1 else (a, b)
+            for target in ("tensor", "ndarray"):
+                mk_out = (lambda: mg.tensor(np.zeros(3, dtype=od))) if target == "tensor" else (lambda: np.zeros(3, dtype=od))
+                compare("mg.%s(%s, out=<%s %s>, dtype=%s)" % (f, dt, target, od, od),
+                        lambda: getattr(mg, f)(*[mg.tensor(v) for v in args_np], out=mk_out(), dtype=od),
+                        lambda: getattr(np, f)(*args_np, out=np.zeros(3, dtype=od), dtype=od), "out+dtype:%s:%s:%s" % (f, dt, target))
+                compare("np.%s(tensor %s, out=<%s %s>, dtype=%s)" % (f, dt, target, od, od),
+                        lambda: getattr(np, f)(*[mg.tensor(v) for v in args_np], out=mk_out(), dtype=od),
+                        lambda: getattr(np, f)(*args_np, out=np.zeros(3, dtype=od), dtype=od), "np-out+dtype:%s:%s:%s" % (f, dt, target))
     # reductions over larger low-precision operands (accumulation order and accumulator dtype show only here)
     for f in SEQ_F:
         for dt in ("float16", "float32"):
